@@ -52,7 +52,7 @@ def _strategy(draw):
     big = draw(st.booleans())
     # a quarter of the pairs: a whole state is blocklisted, outlier models are on, and the perturbed unit is one of
     # that state's units at or above the threshold (its counts must not move the outlier thresholds of the others)
-    state_mode = draw(st.integers(0, 3)) == 0
+    state_mode = draw(st.integers(0, 2)) == 0
     if state_mode:
         big = True
     # a sixth of the pairs: a high-turnout bootstrap election in which no outstanding unit has counted more than its
@@ -104,12 +104,21 @@ def _strategy(draw):
         cands.append(("state_blocklisted", ids))
     if state_mode:
         thr = case["req"]["thr"]
-        above = [u["id"] for u in case["units"] if u["st"] in sb and u["feed"] is not None and u["feed"]["pev"] >= thr]
+        above_units = sorted(
+            (u for u in case["units"] if u["st"] in sb and u["feed"] is not None and u["feed"]["pev"] >= thr), key=lambda u: -(u["bd"] + u["bg"] + u["bo"])
+        )
+        above = [u["id"] for u in above_units[:1]]  # the largest one: the outlier regressions are baseline-weighted
         if above:
             cands = [("state_blocklisted", above)]
+            # one modelled unit of another state is a borderline turnout outlier (factor 1.75, inside the limits), so
+            # that a shift of the outlier threshold would be visible as a change of its category
+            for u in case["units"]:
+                if u["status"] == gen.R and u["st"] not in sb and u["bd"] + u["bg"] >= 40:
+                    u["feed"].update(rd=int(round(u["bd"] * 1.75)), rg=int(round(u["bg"] * 1.75)), ro=int(round(u["bo"] * 1.75)))
+                    break
     kind, ids = cands[draw(st.integers(0, len(cands) - 1))]
     uid = ids[draw(st.integers(0, len(ids) - 1))]
-    repl = draw(st.sampled_from(["zero", "x0.1", "x40", "+1"]))
+    repl = draw(st.sampled_from(["zero", "x0.1", "x40", "+1"])) if not (state_mode and kind == "state_blocklisted") else draw(st.sampled_from(["x40", "x40", "zero"]))
     case["perturb"] = {"kind": kind, "id": uid, "repl": repl}
     return case
 
@@ -149,7 +158,30 @@ def check_case(case, ctx):
     ctx.label("pi:" + pi)
     ctx.label("kind:" + p["kind"])
     viol = lambda kind, detail, sig=None: ctx.violation(kind, detail, case, sig=sig or kind)  # noqa: E731
-    ra, rb = run_case(A), run_case(B)
+    # observe which units the outlier detection regressions are fitted on (their counts move the outlier thresholds
+    # of everybody else, whatever the particular replacement count of this pair happens to do)
+    import elexmodel.handlers.data.CombinedData as CD
+
+    seen_in_outlier_model = []
+    orig_fit = CD.CombinedDataHandler._fit_outlier_detection_model
+
+    def recording_fit(self, reporting_units, response_variable, outlier_z_threshold):
+        seen_in_outlier_model.append(set(reporting_units["geographic_unit_fips"]))
+        return orig_fit(self, reporting_units, response_variable, outlier_z_threshold)
+
+    CD.CombinedDataHandler._fit_outlier_detection_model = recording_fit
+    try:
+        ra = run_case(A)
+    finally:
+        CD.CombinedDataHandler._fit_outlier_detection_model = orig_fit
+    rb = run_case(B)
+    if seen_in_outlier_model:
+        ctx.label("outlier_model_inputs_observed")
+        excluded = {r["id"] for r in ref.categorise(A) if r["baseline"] and (ref.BLOCK in r["reasons"] or ref.ZERO in r["reasons"])}
+        leaked = sorted(set().union(*seen_in_outlier_model) & excluded)
+        if leaked:
+            viol("excluded_unit_in_outlier_model", f"blocklisted / zero-baseline units {leaked[:4]} are among the units the outlier detection model is fitted on", sig="excluded_unit_in_outlier_model")
+            return
     if not ra.ok:
         ctx.label("base:" + ("too_few_units" if common.is_gate_error(ra.exc) else "exception"))
         return
